@@ -36,6 +36,18 @@ def run(cx):
         pushes = b.calls('Vec::push')
         okp = len(pushes) == 1 and cx.guarded(b, pushes[0].bb, '(is (call *Curve3::from_points _ _) Ok)', True) is not None
         cx.ob('GUARD', 'Mesh::section:collect', okp, 'every chain that forms a valid curve is collected', where=b.file)
+    # the only filter between the chained crossing vertices and the returned curve is the duplicate filter of Curve3::from_points
+    b = cx.fn('geom3::curve3::Curve3::from_points')
+    if b:
+        n = 0
+        for cl in cx.facts.closures_of(b.name):
+            r = cx.retval(cl)
+            if find('(field cap:tol _)', r):
+                n += 1
+                cx.expect('EXPR', 'Curve3::from_points:dedup-predicate', r, '(le (call *points::dist (param 2) (param 3)) (field cap:tol (param 1)))',
+                          'section vertices are merged only when their DISTANCE is within tol (a crossing segment longer than tol is never dropped)', where=cl.file)
+        cx.ob('EXPR', 'Curve3::from_points:filters', n == 1 and len(b.calls('Vec::dedup_by')) == 1 and not b.calls('Vec::retain') and not b.calls('Vec::truncate') and not b.calls('Vec::remove'),
+              'the duplicate filter is the only thing that removes section vertices', where=b.file)
     b = cx.fn(f'{M}::split')
     if b:
         LS = '(call TriMesh::local_split (field shape (param self)) (field normal (param plane)) (field d (param plane)) 1e-06)'
